@@ -158,6 +158,8 @@ pub open spec fn is_variant_st(s: Seq<u8>) -> bool {
 pub open spec fn is_ukey(s: Seq<u8>) -> bool { s.len() == 2 && alnum(s[0]) && alpha(s[1]) }
 pub open spec fn is_utype(s: Seq<u8>) -> bool { all_alnum(s) && 3 <= s.len() && s.len() <= 8 }
 pub open spec fn is_tkey(s: Seq<u8>) -> bool { s.len() == 2 && alpha(s[0]) && digit(s[1]) }
+/// what the -t- loop takes for the start of a tlang (2-8 letters; 4 letters is then rejected as a language)
+pub open spec fn lang_shaped(s: Seq<u8>) -> bool { all_alpha(s) && 2 <= s.len() && s.len() <= 8 }
 pub open spec fn is_private(s: Seq<u8>) -> bool { all_alnum(s) && 1 <= s.len() && s.len() <= 8 }
 
 /// language subtag → stored value: lower case, `und` is the empty language
@@ -183,6 +185,21 @@ pub open spec fn strictly_sorted(s: Seq<Seq<u8>>) -> bool {
 pub open spec fn weakly_sorted(s: Seq<Seq<u8>>) -> bool {
     forall|i: int, j: int| 0 <= i <= j < s.len() ==> lex_le(#[trigger] s[i], #[trigger] s[j])
 }
+
+/// ASSUMED: `AsRef::as_ref` is a pure function of the value
+#[verifier::external_trait_specification]
+pub trait ExAsRef<T: core::marker::PointeeSized>: core::marker::PointeeSized {
+    type ExternalTraitSpecificationFor: AsRef<T>;
+    fn as_ref(&self) -> (r: &T)
+        ensures r == as_ref_spec::<Self, T>(self);
+}
+pub uninterp spec fn as_ref_spec<S: core::marker::PointeeSized, T: core::marker::PointeeSized>(s: &S) -> &T;
+/// ASSUMED (std): `<[T] as AsRef<[T]>>::as_ref` is the identity
+pub proof fn axiom_as_ref_slice(v: &[u8])
+    ensures as_ref_spec::<&[u8], [u8]>(&v)@ == v@,
+{ admit(); }
+/// the bytes an `S: AsRef<[u8]>` argument stands for
+pub open spec fn bytes_of<S>(s: S) -> Seq<u8> { as_ref_spec::<S, [u8]>(&s)@ }
 
 /// subtag sequence of an iterator over byte slices
 pub open spec fn toks(s: Seq<&[u8]>) -> Seq<Seq<u8>> { views(s) }
@@ -245,7 +262,11 @@ pub open spec fn lid_expected(t: Seq<Seq<u8>>, v: LidView) -> bool {
     &&& v.script == (if has_script(t) { Some(title(t[1])) } else { None::<Seq<u8>> })
     &&& v.region == (if has_region(t) { Some(upper(t[region_pos(t)])) } else { None::<Seq<u8>> })
     &&& strictly_sorted(v.variants)
-    &&& forall|x: Seq<u8>| v.variants.contains(x) <==> (exists|i: int| var_pos(t) <= i < lid_end(t) && x == lower(#[trigger] t[i]))
+    &&& forall|x: Seq<u8>| #[trigger] v.variants.contains(x) <==> lid_var_member(t, x)
+}
+/// x is the lower-cased form of one of the variant subtags of t
+pub open spec fn lid_var_member(t: Seq<Seq<u8>>, x: Seq<u8>) -> bool {
+    exists|i: int| var_pos(t) <= i < lid_end(t) && x == lower(#[trigger] t[i])
 }
 
 pub open spec fn lowered_run(t: Seq<Seq<u8>>, a: int, k: int) -> Seq<Seq<u8>> {
